@@ -237,6 +237,31 @@ func (propC03) Draw(rt *rapid.T, w *WorldDesc, mode string) *Plan {
 			id++
 		}
 	}
+	// URL vs body: a raw request whose body ALSO mentions the path-bound fields, with other
+	// values. Which value the handler sees is part of "where the field travels": both servers
+	// must take it from the same place.
+	if rpc.HasBody && rpc.PathKnown && len(rpc.PathVars) > 0 {
+		alt := drawValidReq(rt, w, md, "alt")
+		scrubNonFinite(alt.ProtoReflect(), 0)
+		if target, err := BuildTarget(rpc, req, false); err == nil {
+			bm := proto.Clone(alt)
+			r := bm.ProtoReflect()
+			for _, q := range rpc.Query {
+				if fd := r.Descriptor().Fields().ByName(protoreflect.Name(q.Field)); fd != nil {
+					r.Clear(fd)
+				}
+			}
+			body, _ := EncodeBody(bm, "json")
+			for _, server := range []string{"go", "ts"} {
+				op := &Op{ID: id, RPC: md.Key, Client: "raw", Server: server, App: AppBehaviour{Kind: "respond"}, Notes: []string{"conflict=1"}}
+				op.Raw = &RawReq{Verb: rpc.Verb, Target: target, Headers: append([][2]string{{"Content-Type", "application/json"}}, hdrs...), Body: body}
+				op.ReqBin, op.RespBin = mustMarshal(req), mustMarshal(resp)
+				op.DeadlineMs = 60000
+				p.Ops = append(p.Ops, op)
+				id++
+			}
+		}
+	}
 	p.Sequential = rapid.Bool().Draw(rt, "sequential")
 	p.Schedule = drawSchedule(rt, 64)
 	return p
@@ -386,7 +411,12 @@ func (propC03) Check(k *Kernel, cov *Coverage) *Violation {
 	}
 	// (d) delivery matrix and wire agreement
 	shapes := map[string]string{}
+	var conflict []*CallState
 	for _, c := range k.Calls {
+		if noteOf(c.Op, "conflict") == "1" {
+			conflict = append(conflict, c)
+			continue
+		}
 		ck := clientKind(c)
 		pair := ck + ">" + c.Op.Server
 		if len(c.Conns) > 0 && c.Conns[0].Panic != "" {
@@ -448,8 +478,22 @@ func (propC03) Check(k *Kernel, cov *Coverage) *Violation {
 				Detail: fmt.Sprintf("RPC %s: %s client emits %q, %s client emits %q", rpc.Key, kinds[0], shapes[kinds[0]], kinds[i], shapes[kinds[i]])}
 		}
 	}
+	if len(conflict) == 2 && len(conflict[0].Seen) == 1 && len(conflict[1].Seen) == 1 && conflict[0].Seen[0].Req != nil && conflict[1].Seen[0].Req != nil {
+		a, b := conflict[0].Seen[0].Req.ProtoReflect(), conflict[1].Seen[0].Req.ProtoReflect()
+		for _, v := range rpc.PathVars {
+			fd := a.Descriptor().Fields().ByName(protoreflect.Name(v))
+			if fd == nil {
+				continue
+			}
+			if !a.Get(fd).Equal(b.Get(fd)) {
+				return &Violation{Class: "servers-disagree-url-vs-body", Signature: "C03|servers-disagree|url-vs-body|path",
+					Detail: fmt.Sprintf("RPC %s, request %s %s with a body that also mentions path-bound field %q: the %s server hands the handler %v, the %s server %v", rpc.Key, conflict[0].Op.Raw.Verb, conflict[0].Op.Raw.Target, v, conflict[0].Op.Server, a.Get(fd), conflict[1].Op.Server, b.Get(fd))}
+			}
+		}
+		cov.Tuple(k.W.Name, rpc.Key, "url-vs-body", "servers-agree")
+	}
 	for _, c := range k.Calls {
-		if len(c.Wire) == 0 {
+		if len(c.Wire) == 0 || noteOf(c.Op, "conflict") == "1" {
 			continue
 		}
 		u, err := url.ParseRequestURI(c.Wire[0].Target)
